@@ -194,7 +194,12 @@ class _VGLevyMeasure(LevyMeasure):
     def integrate_against_xn(self, a: float, b: float, n: int):
         c = self.parameters._c
 
-        if b < 0:
+        if a < 0 < b:
+            return self.integrate_against_xn(a, 0.0, n) + self.integrate_against_xn(
+                0.0, b, n
+            )
+
+        if b <= 0:
             lm = self.parameters._lambda_m
             return -c * integral_xn_exp_minus_x(n=n - 1, a=a, b=b, alpha=lm)
         else:
